@@ -26,7 +26,12 @@ Sets == <<
   [id |-> 9, words |-> {"number", "sold", "b"}, syms |-> {"-", "+"}, names |-> {B("number sold", 7), B("b", 3), B("sold", 5)}, extra |-> {}],
   [id |-> 10, words |-> {"time", "limit", "string"}, syms |-> {"-", "*"}, names |-> {B("time limit", 7), B("string", 3), B("limit", 5), B("string time", 11)}, extra |-> {}],
   \* single words that also spell a temporal built-in function, bound as names
-  [id |-> 11, words |-> {"date", "time", "duration"}, syms |-> {"-", "+"}, names |-> {B("date", 2), B("time", 3), B("duration", 5)}, extra |-> {}]
+  [id |-> 11, words |-> {"date", "time", "duration"}, syms |-> {"-", "+"}, names |-> {B("date", 2), B("time", 3), B("duration", 5)}, extra |-> {}],
+  \* words made of name characters that are no letters (grammar rule 28: the ranges U+2070-218F, U+200C-200D and
+  \* U+10000-EFFFF): the harness writes a currency sign for Eur, a numero sign for Nro, a word with a zero-width joiner
+  \* for Zwj and an emoji for Emo
+  [id |-> 12, words |-> {"Eur", "b", "Nro"}, syms |-> {"-", "+"}, names |-> {B("Eur", 2), B("b", 3), B("b Eur", 7), B("Nro", 5)}, extra |-> {}],
+  [id |-> 13, words |-> {"Zwj", "Emo", "b"}, syms |-> {"-", "*"}, names |-> {B("Zwj", 2), B("b", 3), B("Emo", 5), B("Emo b", 11)}, extra |-> {}]
 >>
 
 Alphabet(s) == s.words \cup s.syms \cup {"1"}
